@@ -29,6 +29,13 @@ for d in seeded/*/; do
   done
   git -C /repo checkout -- . ; git -C /repo reset -q
 done
-mv "$OUT.tmp" "$OUT"
+if [ $# -gt 0 ] && [ -f "$OUT" ]; then
+  # a partial run replaces the lines of the changes it ran and keeps the others
+  names=$(cut -d: -f1 "$OUT.tmp" | sort -u)
+  { grep -v -F -f <(printf '%s:\n' $names) "$OUT"; cat "$OUT.tmp"; } | sort > "$OUT.merged"
+  mv "$OUT.merged" "$OUT"; rm -f "$OUT.tmp"
+else
+  mv "$OUT.tmp" "$OUT"
+fi
 # leave the harness built against the restored tree
 exit 0
